@@ -13,7 +13,27 @@ func (e *Engine) v(sys *Sys, class string, format string, args ...interface{}) *
 }
 
 // checkEntity compares everything the public API reports about one alive entity with the model.
-func (e *Engine) checkEntity(s *Sys, me *MEnt, _ string) *Violation {
+// checkEntity compares one entity with the model. When the components or the target differ while a listener subscribed
+// to everything has received exactly the predicted events, the event stream does not describe the world either
+// ("replaying the stream reconstructs every entity's components and targets", C11): the mismatch is also an event
+// violation.
+func (e *Engine) checkEntity(s *Sys, me *MEnt, cl string) *Violation {
+	v := e.checkEntityRaw(s, me, cl)
+	if v != nil && (v.Class == "compset" || v.Class == "target") && s == e.S && e.listening() && e.P.Listener == "all" {
+		deferred := false // events of this entity still held back by an open batch query
+		for _, oq := range e.Open {
+			if oq.HasDef && oq.ExpSet[me.H] {
+				deferred = true
+			}
+		}
+		if !deferred {
+			v.Also = append(v.Also, "event")
+		}
+	}
+	return v
+}
+
+func (e *Engine) checkEntityRaw(s *Sys, me *MEnt, _ string) *Violation {
 	w := s.W
 	h := me.H
 	if !w.Alive(h) {
@@ -269,7 +289,7 @@ func (e *Engine) checkSlot(s *Sys, slot int) *Violation {
 			return e.v(s, "query-set", "filter %s selects non-matching entity %v %v target %v", spec, me.H, listOf(me.Cs), me.Target)
 		}
 	}
-	for h := range set {
+	for _, h := range l {
 		if _, ok := e.M.ByH[h]; !ok {
 			return e.v(s, "query-set", "filter %s visits %v which is not alive", spec, h)
 		}
@@ -285,9 +305,9 @@ func (e *Engine) checkSlot(s *Sys, slot int) *Violation {
 		if dup2 || cnt2 != len(l2) {
 			v := e.v(s, "cache-diff", "filter %s: registered visits %d (dup=%v, Count=%d), original %d", spec, len(l2), dup2, cnt2, len(l))
 			v.Also = append(v.Also, "query-set") // C03 covers registered filters too: an entity visited twice / Count wrong
-			return v
+			return relAlso(v, spec)
 		}
-		for h := range set2 {
+		for _, h := range l2 {
 			if !set[h] {
 				return e.cachedExtra(s, spec, h, len(l2), len(l))
 			}
@@ -295,14 +315,14 @@ func (e *Engine) checkSlot(s *Sys, slot int) *Violation {
 		if len(set2) != len(set) {
 			v := e.v(s, "cache-diff", "filter %s: registered visits %d, original %d", spec, len(l2), len(l))
 			v.Also = append(v.Also, "query-set")
-			return v
+			return relAlso(v, spec)
 		}
-		for h := range set {
+		for _, h := range l {
 			if !set2[h] {
-				return e.v(s, "cache-diff", "filter %s: registered misses %v selected by the original", spec, h)
+				return relAlso(e.v(s, "cache-diff", "filter %s: registered misses %v selected by the original", spec, h), spec)
 			}
 		}
-		for h := range set2 {
+		for _, h := range l2 {
 			if !set[h] {
 				return e.cachedExtra(s, spec, h, len(l2), len(l))
 			}
@@ -343,9 +363,19 @@ func (e *Engine) entityAtAgrees(s *Sys, f ecs.Filter, seq []ecs.Entity, what str
 	return nil
 }
 
+// relAlso: a registered RELATION filter is still a relation filter with target T; when its selection differs from the
+// original's (which has just been checked against the model), it does not select "exactly those whose current target
+// is T" either (C05).
+func relAlso(v *Violation, spec *FilterSpec) *Violation {
+	if spec.Kind == "relation" {
+		v.Also = append(v.Also, "target-census-missing")
+	}
+	return v
+}
+
 // cachedExtra: the registered filter selects an entity the original does not.
 func (e *Engine) cachedExtra(s *Sys, spec *FilterSpec, h ecs.Entity, n2, n1 int) *Violation {
-	v := e.v(s, "cache-diff", "filter %s: registered selects %v which the original does not (registered visits %d, original %d)", spec, h, n2, n1)
+	v := relAlso(e.v(s, "cache-diff", "filter %s: registered selects %v which the original does not (registered visits %d, original %d)", spec, h, n2, n1), spec)
 	me := e.M.ByH[h]
 	if me == nil {
 		v.Also = append(v.Also, "query-set")
@@ -384,7 +414,7 @@ func (e *Engine) census(s *Sys) *Violation {
 			if dup {
 				return e.v(s, "query-set", "relation filter (type %d, target %v) visits an entity twice", r, t)
 			}
-			for h := range set {
+			for _, h := range l {
 				if !want[h] {
 					me := m.ByH[h]
 					desc := "not alive"
